@@ -563,11 +563,12 @@ class SecopClient(ProxyClient):
         if shutdown:
             self._shutdown.set()
             self._set_state(False, 'shutdown')
-            if self._connthread:
-                if self._connthread == current_thread():
+            connthread = self._connthread
+            if connthread:
+                if connthread == current_thread():
                     return
                 # wait for connection thread stopped
-                self._connthread.join()
+                connthread.join()
                 self._connthread = None
         self.disconnect_time = time.time()
         try:  # make sure txq does not block
@@ -575,17 +576,22 @@ class SecopClient(ProxyClient):
                 self.txq.get(False)
         except Exception:
             pass
-        if self.io:
-            self.io.shutdown()
-        if self._txthread:
+        # the rx and tx threads clear self._rxthread / self._txthread / self.io
+        # concurrently when they end: use local references
+        io = self.io
+        if io:
+            io.shutdown()
+        txthread = self._txthread
+        if txthread:
             self.txq.put(None)  # shutdown marker
-            self._txthread.join()
+            txthread.join()
             self._txthread = None
-        if self._rxthread:
-            self._rxthread.join()
+        rxthread = self._rxthread
+        if rxthread:
+            rxthread.join()
             self._rxthread = None
-        if self.io:
-            self.io.disconnect()
+        if io:
+            io.disconnect()
         self.io = None
         # abort pending requests early
         try:  # avoid race condition
